@@ -48,6 +48,11 @@ fn eval(ctx: &mut Context, code: &str) -> J {
     }
 }
 
+/// does the reader take `text` as ONE identifier (and not, e.g., as two adjacent identifiers = a product)?
+fn one_identifier(text: &str) -> bool {
+    matches!(numbat::verif::parse_sexpr(text), Ok(v) if v.len() == 1 && v[0] == format!("(id {text})"))
+}
+
 // ------------------------------------------------------------------------------------------------
 // dump
 
@@ -126,11 +131,12 @@ fn replay_chunk(cases: &[J]) -> Vec<J> {
         let id = c["id"].as_str().unwrap();
         let mut o = json!({"k": c["k"], "res": resolve(&ctx, id)});
         if c["eval"].as_bool().unwrap_or(false) {
+            o["one_token"] = json!(one_identifier(id));
             let conv = eval(&mut ctx, &format!("{id} -> {id}"));
             let fac = eval(&mut ctx, &format!("1 {id} -> {}", c["unit"].as_str().unwrap()));
             if let Some(text) = conv["unit_text"].as_str() {
                 let text = text.to_string();
-                o["rb"] = json!({"res": resolve(&ctx, &text), "conv": eval(&mut ctx, &format!("{text} -> {text}"))});
+                o["rb"] = json!({"res": resolve(&ctx, &text), "one_token": one_identifier(&text), "conv": eval(&mut ctx, &format!("{text} -> {text}"))});
             }
             o["conv"] = conv;
             o["fac"] = fac;
